@@ -360,6 +360,16 @@ partial def loop (h : IO.FS.Stream) (s : St) : IO Unit := do
       if !(sg.contains "stop-drop" || sg.contains "stopped-backlog") then
         printVios (if s.diverged then s.sc ++ "~" else s.sc) s.line [{ prop := "C03", clause := "hang", sigs := sg, detail := s!"external await of event {e} never returns" }]
       loop h s
+    | ["oAwaited", i, c, sg] =>
+      -- C04 on the observed child: an in-handler await returned although the real child is not signalled complete and the
+      -- awaiting handler is not being cancelled (where the model agrees that the tree is not done, `Mon.step` has reported it)
+      let I := s.w.inst i.toNat!
+      if sg == "0" && !I.cancelling && treeDone s.w c.toNat! then
+        let sigs := (if f1Sig s.w i.toNat! c.toNat! then ["F1"] else []) ++
+                    (if parStealSig s.w i.toNat! c.toNat! then ["par-steal"] else []) ++ stuckSigs s.w s.m c.toNat!
+        printVios (s.sc ++ "~") s.line
+          [⟨"C04", "incomplete", sigs, s!"instance {i}: the await on event {c} returned while the real event is not signalled complete (the model's tree is done)"⟩]
+      loop h s
     | ["oParent", pp, e, par] =>
       -- C09: the parent the real event carries after the dispatch, against the handler attribution of the model
       let real := optNat par
@@ -426,6 +436,27 @@ partial def loop (h : IO.FS.Stream) (s : St) : IO Unit := do
               let sg : List String := if E.path.getLast? != some I.bus && E.path.contains I.bus then ["F9"] else []
               let vio : Vio := ⟨"C09", "eventBus", sg, s!"instance {i} on bus {I.bus} read event_bus = {got}"⟩
               printVios (if s.diverged then s.sc ++ "~" else s.sc) s.line [vio]
+          -- C08: a result of an event that was observed complete differs, on the real event, from what it was then
+          | ["oRes", e, idx, _, _, st, err, _] =>
+            (match s.m.snaps.find? (·.1 == e.toNat!), (s.w.ev e.toNat!).results[idx.toNat!]? with
+             | some (_, rs), some r =>
+               (match rs[idx.toNat!]? with
+                | some r0 =>
+                  if r0.status == r.status && r0.err == r.err && (rstatusStr r.status != st || errStr r.err != err) then
+                    printVios (s.sc ++ "~") s.line
+                      [⟨"C08", "changed", [], s!"event {e} was observed complete with result #{idx} {rstatusStr r0.status}/{errStr r0.err}; the real result is now {st}/{err}"⟩]
+                  else pure ()
+                | none => pure ())
+             | _, _ => pure ())
+            -- C10: at rest no handler result is left pending / started once a timeout has occurred in the run, unless a
+            -- recorded mechanism (in its narrow form) or the client's stop() explains it
+            let hs := hangSigs s.w s.m e.toNat!
+            if s.rested && s.m.everTimeout && (st == "pending" || st == "started") &&
+               !(hs.contains "stop-drop" || hs.contains "stopped-backlog") then
+              printVios (if s.diverged then s.sc ++ "~" else s.sc) s.line
+                [⟨"C10", "resultLeftPending", stuckSigs s.w s.m e.toNat!,
+                  s!"event {e} result #{idx} is still {st} at rest"⟩]
+            else pure ()
           -- C13: the bound, evaluated on the history observed on the real bus after a dispatch / processing step
           | ["oHist", b, hh] =>
             let real := natList hh
